@@ -126,7 +126,7 @@ Fixpoint check_corr (c : case) : bool :=
       && either avg_eqb (avg_numpy nch time values ws) (avg_loop nch time values ws) o_pub
   | CNni l o => nni_eqb (not_none_indices l) o
   | CTimes rate durs o => times_eqb (sample_times rate durs) o
-  | CSample chans markers rate wfs o => outcome_eqb (list_eqb sampled_eqb) (sample_waveforms chans markers rate wfs) o
+  | CSample chans markers rate wfs o => outcome_eqb (list_eqb sampled_eqb) (entry_waveforms chans markers rate wfs) o
   | CCrash => false
   end.
 
@@ -154,6 +154,6 @@ Fixpoint check_spec (c : case) : bool :=
   | CNni l o => spec_nni [] l (fst o)
                 && (snd o =? Z.of_nat (length (filter (fun x => match x with Some _ => true | None => false end) l)))
   | CTimes rate durs o => spec_times rate durs o
-  | CSample chans markers rate wfs o => outcome_eqb (list_eqb sampled_eqb) (spec_sample chans markers rate wfs) o
+  | CSample chans markers rate wfs o => outcome_eqb (list_eqb sampled_eqb) (spec_entry chans markers rate wfs) o
   | CCrash => false
   end.
